@@ -288,6 +288,7 @@ def judge_vertex_shape(chk, it, rcirc):
             rr = float(np.max(np.linalg.norm(V - cen, axis=1)))
             if np.linalg.norm(np.array(b.center) - cen) > 1e-12 * (size + np.linalg.norm(cen)) or abs(b.radius - rr) > 1e-12 * rr:
                 chk.violation(name, dict(desc, center=np.array(b.center).tolist(), radius=float(b.radius), exact_radius=rr))
+            radius_getter(chk, sh, name, float(b.radius), desc)
         name = ballname(dim, "maximal_centered_bounded")
         st, b = C.excname(lambda: getattr(sh, name))
         if st != "ok":
@@ -297,7 +298,17 @@ def judge_vertex_shape(chk, it, rcirc):
             rr = float(np.min(dists))
             if np.linalg.norm(np.array(b.center) - cen) > 1e-12 * (size + np.linalg.norm(cen)) or abs(b.radius - rr) > 1e-9 * size:
                 chk.violation(name, dict(desc, center=np.array(b.center).tolist(), radius=float(b.radius), exact_radius=rr))
+            radius_getter(chk, sh, name, float(b.radius), desc)
     chk.sample(dict(cls=type(sh).__name__, kind=it["kind"], nverts=len(V), cyclic=it["cyc"], tangential=it["tan"]))
+
+
+def radius_getter(chk, sh, name, r, desc):
+    """every ball property has a matching <name>_radius getter: it must report that ball's radius"""
+    if not hasattr(type(sh), name + "_radius"):
+        return
+    st, rg = C.excname(lambda: float(getattr(sh, name + "_radius")))
+    if st != "ok" or abs(rg - r) > 1e-12 * abs(r):
+        chk.violation(name + "_radius", dict(desc, getter=None if st != "ok" else rg, ball=r, error=st))
 
 
 def face_distances(sh, V, dim, p):
